@@ -112,18 +112,26 @@ def welford_rolling(F, R):
             continue
         if leaf[0] == 'some':
             x = leaf[1]
-            if s and x == op('sqrt', op('div', ('in', s), op('from_int', ('in', n)))):
-                allowed = {'<', '=', '>'}
-                for c in conds:
-                    r = relation(c, ('in', n), lit(1, 'i'))
-                    if r is not None:
-                        allowed &= r
-                if allowed <= {'>'} or any(relation(c, ('in', n), lit(2, 'i')) is not None and relation(c, ('in', n), lit(2, 'i')) <= {'>', '='} for c in conds):
+            from .e3_bounds import Bounds, structural_cond
+            from .solve import Hyps, entails_h
+            if not hasattr(welford_rolling, '_B') or welford_rolling._B[0] is not F:
+                B_ = Bounds(F, v)
+                welford_rolling._B = (F, B_, B_.pre + B_.houdini())
+            B_, entry_ = welford_rolling._B[1], welford_rolling._B[2]
+            ctx_ = B_.ctx(m.last_vg)
+            data_conds = [c for c in conds if not structural_cond(c, ctx_)]
+            H = Hyps(entry_ + [c for c in conds if structural_cond(c, ctx_)], ctx_)
+            if data_conds:
+                # which of the three answers is given must depend on the sample count only
+                bad = 'the value reported depends on a data condition: %s' % tstr(data_conds[0])[:70]
+            elif s and x == op('sqrt', op('div', ('in', s), op('from_int', ('in', n)))):
+                if entails_h(H, op('ge', ('in', n), lit(2, 'i'))):
                     seen_sqrt = True
                 else:
                     bad = 'sqrt(s/n) outside n > 1'
             elif x == op('sqrt', lit(0.0)):
-                pass
+                if not entails_h(H, op('le', ('in', n), lit(1, 'i'))):
+                    bad = '0 is reported although more than one sample may have been seen'
             else:
                 bad = 'unexpected output %s' % tstr(x)[:60]
     good = seen_sqrt and seen_none and bad is None
